@@ -156,6 +156,14 @@ def run(prop, tier, seed):
             ctx.notes.append("coqchk -silent -o: %s; axioms reported: %s" % ("ok" if okk else "FAILED", kax or "<none>"))
             if not okk:
                 broken.append("coqchk does not accept Properties/%s.vo: %s" % (pid, klog[-600:]))
+        if getattr(prop, "shape_tie", False):
+            # the machine's steps are the critical sections / channel operations of the code: their syntactic skeleton
+            # is re-extracted from /repo's current tree and compared with what the machine was written against
+            sd = core.lockshape_diff()
+            obligations.append(("tie:synchronisation skeleton of cache.go/store.go/ttl.go/policy.go/ring.go = lib/lockshape.expected",
+                                not sd, "; ".join(sd)[:600]))
+            for d in sd[:6]:
+                broken.append("the code's critical sections / step order differ from the machine's: " + d)
         okr, rlog = core.build_runner()
         if not okr:
             broken.append("extracted runner does not build: " + rlog[-800:])
